@@ -31,14 +31,14 @@ PROP = dict(
         dict(id="c13_grid_tsan", harness="c13_grid", flavour="tsan", cases={Q: 1500, T: 30000}, timeout={Q: 1800, T: 10800},
              args=["mode=threads"], env={"OMP_WAIT_POLICY": "passive", "KMP_BLOCKTIME": "0"}),
     ],
-    min_nontrivial={Q: 8000, T: 100000},
-    coverage_floor=[("c13_grid", "index_comparisons", {Q: 50000000, T: 2000000000}),
-                    ("c13_grid", "volume_vs_exact_comparisons", {Q: 5000000, T: 200000000}),
-                    ("c13_grid", "forms_comparisons", {Q: 10000000, T: 600000000}),
-                    ("c13_grid", "subdivision_cells_compared", {Q: 500000, T: 20000000}),
-                    ("c13_grid", "thread_volume_comparisons_with_teams_of_1_4_16", {Q: 2000000, T: 100000000}),
-                    ("c13_grid", "egrid_round_trips", {Q: 30000, T: 400000}),
-                    ("c13_grid_tsan", "thread_volume_comparisons_with_teams_of_1_4_16", {Q: 50000, T: 8000000})],
+    min_nontrivial={Q: 8000, T: 80000},
+    coverage_floor=[("c13_grid", "index_comparisons", {Q: 50000000, T: 468750000}),
+                    ("c13_grid", "volume_vs_exact_comparisons", {Q: 5000000, T: 46875000}),
+                    ("c13_grid", "forms_comparisons", {Q: 10000000, T: 93750000}),
+                    ("c13_grid", "subdivision_cells_compared", {Q: 500000, T: 4687500}),
+                    ("c13_grid", "thread_volume_comparisons_with_teams_of_1_4_16", {Q: 2000000, T: 18750000}),
+                    ("c13_grid", "egrid_round_trips", {Q: 30000, T: 281250}),
+                    ("c13_grid_tsan", "thread_volume_comparisons_with_teams_of_1_4_16", {Q: 50000, T: 750000})],
     not_decided=[
         "block-centred input whose DX varies along j or k (DY along i or k): no corner-point grid is equivalent to such a "
         "description (the library builds tilted pillars from the top and bottom layer); the generator keeps DX = f(i), DY = f(j)",
